@@ -14,6 +14,23 @@ type cgen struct {
 	rng     *rand.Rand
 	w       *sworld
 	classic bool // restrict to the fragment implemented without a corpus
+	// partial: the world is queried while only partly delivered; a "child" relation through
+	// camliContent could then name a blob the index has not seen (perkeep answers such a query
+	// with an error, which is not what this generator is after)
+	partial bool
+}
+
+// edgeType picks an explicit RelationConstraint.EdgeType: the default edge attributes, the custom
+// ones of the world (seeAlso, camliContent), and an attribute whose values are never refs.
+func (g *cgen) edgeType(relation string) string {
+	pool := []string{"camliMember", "camliPath:x", "camliPath:y", "tag"}
+	for _, e := range g.w.edgeTypes {
+		if e == "camliContent" && relation == "child" && g.partial {
+			continue
+		}
+		pool = append(pool, e, e)
+	}
+	return pool[g.rng.Intn(len(pool))]
 }
 
 func (g *cgen) pick(ss []string) string {
@@ -200,8 +217,9 @@ func (g *cgen) pnLeaf1(depth int) *search.Constraint {
 		pc.Time = g.timeC()
 	case 10:
 		rc := &search.RelationConstraint{Relation: []string{"parent", "child"}[g.rng.Intn(2)]}
-		if g.rng.Intn(3) == 0 {
-			rc.EdgeType = []string{"camliMember", "camliPath:x"}[g.rng.Intn(2)]
+		if g.rng.Intn(2) == 0 {
+			rc.EdgeType = g.edgeType(rc.Relation)
+			g.w.features["relation-edge-type/"+rc.Relation+"/"+edgeClass(rc.EdgeType)]++
 		}
 		sub := g.pnOnlyTree(depth - 1)
 		if g.rng.Intn(2) == 0 {
@@ -220,6 +238,17 @@ func (g *cgen) pnLeaf1(depth int) *search.Constraint {
 		pc.At = g.at()
 	}
 	return &search.Constraint{Permanode: pc}
+}
+
+// edgeClass: evidence class of an explicit edge type.
+func edgeClass(e string) string {
+	switch {
+	case e == "camliMember" || len(e) > 10 && e[:10] == "camliPath:":
+		return "default-edge"
+	case e == "tag":
+		return "non-ref-attribute"
+	}
+	return "custom:" + e
 }
 
 // pnLeaf is pnLeaf1, sometimes with the features of a second one merged in ("a blob matches if it
@@ -515,6 +544,9 @@ func (g *cgen) directed() []*search.Constraint {
 	or := func(a, b *search.Constraint) *search.Constraint {
 		return &search.Constraint{Logical: &search.LogicalConstraint{Op: "or", A: a, B: b}}
 	}
+	not1 := func(a *search.Constraint) *search.Constraint {
+		return &search.Constraint{Logical: &search.LogicalConstraint{Op: "not", A: a}}
+	}
 	pn := &search.Constraint{CamliType: schema.TypePermanode}
 	out := []*search.Constraint{
 		typed("typeA"),
@@ -542,6 +574,39 @@ func (g *cgen) directed() []*search.Constraint {
 	out = append(out,
 		&search.Constraint{Permanode: &search.PermanodeConstraint{Relation: &search.RelationConstraint{Relation: "child", EdgeType: "camliPath:y", Any: pn}}},
 		&search.Constraint{Permanode: &search.PermanodeConstraint{Relation: &search.RelationConstraint{Relation: "parent", All: tag("a")}}})
+	// relations through edge types other than the default ones, in both directions: the parent's
+	// attribute (seeAlso, camliContent naming a permanode) must be followed backwards from the child
+	rel := func(relation, edge string, all bool, sub *search.Constraint) *search.Constraint {
+		rc := &search.RelationConstraint{Relation: relation, EdgeType: edge}
+		if all {
+			rc.All = sub
+		} else {
+			rc.Any = sub
+		}
+		g.w.features["relation-edge-type/"+relation+"/"+edgeClass(edge)]++
+		return &search.Constraint{Permanode: &search.PermanodeConstraint{Relation: rc}}
+	}
+	for ei, e := range g.w.edgeTypes {
+		if e == "camliContent" && g.partial {
+			continue // see cgen.partial
+		}
+		out = append(out,
+			rel("parent", e, false, pn),
+			rel("parent", e, true, pn),
+			rel("child", e, false, pn),
+			rel("parent", e, false, &search.Constraint{Permanode: &search.PermanodeConstraint{SkipHidden: true}}),
+			rel("parent", e, ei%2 == 0, tag(g.pick(g.w.tags))),
+			and(pn, rel("parent", e, false, &search.Constraint{Anything: true})),
+			not1(rel("parent", e, false, pn)))
+		out = append(out,
+			rel("child", e, true, &search.Constraint{AnyCamliType: true}),
+			rel("child", e, false, &search.Constraint{CamliType: schema.TypeFile}))
+		for i := 0; i < 3 && i < len(g.w.pns); i++ {
+			t := &search.Constraint{BlobRefPrefix: g.w.pns[(i*7+ei)%len(g.w.pns)].String()}
+			out = append(out, rel("parent", e, false, t), rel("child", e, false, t))
+		}
+	}
+	out = append(out, rel("parent", "tag", false, pn), rel("parent", "camliPath:x", false, pn), rel("parent", "camliMember", true, pn))
 	// nested attribute constraints evaluated on each of several member values
 	for _, t := range g.w.tags {
 		out = append(out, &search.Constraint{Permanode: &search.PermanodeConstraint{Attr: "camliMember", ValueInSet: tag(t)}})
